@@ -21,7 +21,7 @@
    correspondence run (the harness calls each of the 1286 impls by its qualified trait path and
    compares in-process with the ref-ref result). *)
 From Coq Require Import ZArith List Bool.
-From BigNum Require Import Base Forms FormsLeaves FormsProofs FormsLeavesProofs Extracted InstForms.
+From BigNum Require Import Base X86 AddSub Forms FormsLeaves FormsProofs FormsLeavesProofs FormsAddSubLeaves Extracted InstAddSub InstForms.
 Import ListNotations.
 Open Scope Z_scope.
 
@@ -79,6 +79,22 @@ Theorem C10_leaf_rem_assign :
   forall t s u, slo t <= s <= shi t -> 0 <= u -> srem_assign t s u = zsem FamU OpRem s u.
 Proof. exact leaf_rem_assign_spec. Qed.
 Print Assumptions C10_leaf_rem_assign.
+
+(* the BigUint scalar add/sub leaves at DIGIT level (model/AddSub.v: AddAssign<u32|u64|u128>,
+   SubAssign<u32|u64|u128>, Sub<BigUint> for u32|u64|u128, on the source-extracted parameters):
+   this discharges H_uadd_scalar, H_usub_scalar, H_scalar_usub for the digit-level instance *)
+Theorem C10_leaf_biguint_addsub_scalar :
+  forall x s, 0 <= x -> 0 <= s < B * B ->
+  uadd_s_val addsub x s = zsem FamU OpAdd x s /\
+  usub_s_val addsub x s = zsem FamU OpSub x s /\
+  s_usub_val s x = zsem FamU OpSub s x.
+Proof.
+  intros x s Hx Hs. pose proof addsub_params_ok as Hp. repeat split.
+  - apply H_uadd_scalar_discharged; assumption.
+  - apply H_usub_scalar_discharged; assumption.
+  - apply H_scalar_usub_discharged; assumption.
+Qed.
+Print Assumptions C10_leaf_biguint_addsub_scalar.
 
 (* non-vacuity: the hypotheses are satisfiable (big_ops_z_ok), and a concrete chain
    `&i8 - &BigInt` -> `i8 - BigInt` -> `i32 - BigInt` (leaf, checked_uabs dispatch) evaluates right *)
